@@ -191,9 +191,29 @@ def shadowSpec (m : Mat) : List Int :=
     | none => 0
     | some k => sgnOf c * weightOf t k)
 
+/-- a level function on keys: the number of entries ranked strictly below -/
+def levOf (ks : List Key) (k : Key) : Nat := (ks.filter (fun k' => decide (Key.lt k' k))).length
+
+/-- distinct keys (the last occurrence of each is kept) -/
+def dedupK : List Key → List Key
+  | [] => []
+  | k :: r => if r.contains k then dedupK r else k :: dedupK r
+
+/-- `prio` along axis 0, by keys: the dense rank of the column's key among the distinct keys, with the sign of the
+    column's last non-zero entry; 0 for an all-zero column -/
+def prioSpec (m : Mat) : List Int :=
+  let cols := (List.range (ncols m)).map (col m)
+  let ds := dedupK (cols.filterMap keyOf)
+  cols.map (fun c => match keyOf c with
+    | none => 0
+    | some k => sgnOf c * (1 + (levOf ds k : Int)))
+
 /-- `compress0` with `shadow` computed from the key specification instead of the code's plumbing -/
 def compress0Spec (method : String) (m : Mat) : Option (List Int) :=
-  if method = "shadow" then some (shadowSpec m) else compress0 method m
+  if method = "shadow" then some (shadowSpec m)
+  else if method = "prio" then some (prioSpec m)
+  else if method = "rank" then some (ranking (prioSpec m))
+  else compress0 method m
 
 def compress2Spec (method : String) (axis : Nat) (m : Mat) : Option (List Int) :=
   if axis = 0 then compress0Spec method m else compress0Spec method (transpose m)
